@@ -270,6 +270,197 @@ def run_history(ops, out, stats, check_values=True, rng=None, n_ops=0, gen=None)
     return nontrivial
 
 
+# ----------------------------------------------------------------------------- scenario family: arrivals of definitions
+#
+# The small-scope enumeration of the property: every ordered-base DAG on up to four spaces (and the five-space DAGs
+# obtained by putting an intermediate space into one edge of a four-space DAG: a base reached THROUGH a space that
+# has nothing of its own), every kind of member (cells, references), and the member defined
+#   * in two spaces, in both orders, at every moment of the creation of the spaces at which it can be done
+#     ("pairs": every position of (existing definer, new definer) in every linearisation, with the sub spaces
+#     created before the first, between the two, or after both definitions), and
+#   * in EVERY space in EVERY order, with all spaces created first ("late") or each definition made as soon as its
+#     space exists ("early").
+# After every operation the whole state is compared with derivation from scratch and with the mechanism model
+# (`run_history`).  An arrival is *re-pointing* when a space that exists already holds a derived member of the
+# name whose first definer comes later in its linearisation than the space the new definition is made in: the
+# incremental step has to move an existing derived member to another definer.  The quick tier runs every re-pointing
+# pair on the four-space DAGs and seeded samples of the rest; the thorough tier runs everything on <= 4 spaces.
+
+SPACE_NAMES = ["A", "B", "C", "D", "E"]
+ARRIVAL_NAME = {"cells": "g", "refs": "t"}
+
+
+def _linearise(bases):
+    """[linearisation (indices) of every space] by Python's own C3, or None when some space has none"""
+    cls, res = [], []
+    for i, bs in enumerate(bases):
+        try:
+            c = type("S%d" % i, tuple(cls[b] for b in bs), {"_i": i})
+        except TypeError:
+            return None
+        cls.append(c)
+        res.append([k._i for k in c.__mro__[:-1]])
+    return res
+
+
+def ordered_dags(n):
+    """every assignment of an ORDERED list of earlier spaces as direct bases to each of n spaces (creation order =
+    index order) for which every space has a linearisation: [(bases, linearisations)]"""
+    import itertools
+    out = []
+
+    def rec(i, cur):
+        if i == n:
+            out.append(([list(b) for b in cur], _linearise(cur)))
+            return
+        for k in range(i + 1):
+            for bs in itertools.permutations(range(i), k):
+                if _linearise(cur + [list(bs)]) is not None:
+                    rec(i + 1, cur + [list(bs)])
+    rec(0, [])
+    return out
+
+
+def subdivided(bases):
+    """the DAGs with one more space: an intermediate space without anything of its own put into one edge
+    (s -> I -> b instead of s -> b); the new space is created just before s"""
+    out = []
+    for s, bs in enumerate(bases):
+        for j in range(len(bs)):
+            new = []
+            for i, b2 in enumerate(bases):
+                if i == s:
+                    new.append([bs[j]])             # the intermediate space, at index s
+                shifted = [x + 1 if x >= s else x for x in b2]
+                if i == s:
+                    shifted[j] = s
+                new.append(shifted)
+            if _linearise(new) is not None and new not in out:
+                out.append(new)
+    return out
+
+
+def member_op(kind, space, k):
+    if kind == "cells":
+        return ["new_cells", space, ARRIVAL_NAME[kind], S.F(0, k + 1)]
+    # references: every definer another value, and the modes differ too (a derived reference has its first definer's)
+    return ["set_ref", space, ARRIVAL_NAME[kind], 20 + k, ("auto", "absolute", "relative")[k % 3]]
+
+
+def arrival_history(bases, kind, definers, slots):
+    """spaces created in index order; definers[i] gets the member after slots[i] spaces have been created"""
+    ops = []
+    di = 0
+    for t in range(len(bases) + 1):
+        while di < len(definers) and slots[di] == t:
+            ops.append(member_op(kind, SPACE_NAMES[definers[di]], definers[di]))
+            di += 1
+        if t < len(bases):
+            ops.append(["new_space", "-", SPACE_NAMES[t], [SPACE_NAMES[b] for b in bases[t]]])
+    return ops
+
+
+def repointing(lin, definers, slots):
+    """does some arrival of the history move an existing derived member to a new first definer?"""
+    for i in range(1, len(definers)):
+        x, earlier = definers[i], definers[:i]
+        for d in range(min(slots[i], len(lin))):
+            if d == x or d in earlier or x not in lin[d]:
+                continue
+            before = [y for y in lin[d] if y in earlier]
+            if before and lin[d].index(x) < lin[d].index(before[0]):
+                return True
+    return False
+
+
+def pair_slots(n, y, x):
+    """every pair of moments (number of spaces created so far) at which y and then x can get the member"""
+    return [(t1, t2) for t1 in range(y + 1, n + 1) for t2 in range(max(t1, x + 1), n + 1)]
+
+
+def arrival_family(ctx):
+    """[(label, ops)] - see the comment above"""
+    import itertools
+    thorough = ctx.tier == "thorough"
+    rng = ctx.rng("arrivals")
+    shapes4 = [d for n in (3, 4) for d in ordered_dags(n)]
+    shapes5 = []
+    for bases, _ in shapes4:
+        if len(bases) == 4:
+            shapes5 += [b for b in subdivided(bases) if b not in shapes5]
+    shapes5 = [(b, _linearise(b)) for b in shapes5]
+    kinds = ("cells", "refs")
+
+    def slots_every(perm, early):
+        n = len(perm)
+        if not early:
+            return tuple([n] * n)
+        sl, t = [], 0
+        for d in perm:
+            t = max(t, d + 1)
+            sl.append(t)
+        return tuple(sl)
+
+    def draw(shapes, want_repointing):
+        """one history drawn at random: a pair at some moments, or every space in some order"""
+        for _ in range(200):
+            bases, lin = rng.choice(shapes)
+            n = len(bases)
+            kind = rng.choice(kinds)
+            if rng.random() < 0.5:
+                y, x = rng.sample(range(n), 2)
+                h = ("pair", bases, kind, (y, x), rng.choice(pair_slots(n, y, x)))
+            else:
+                perm = tuple(rng.sample(range(n), n))
+                h = ("every", bases, kind, perm, slots_every(perm, rng.random() < 0.4))
+            if not want_repointing or repointing(lin, h[3], h[4]):
+                return h
+        return h
+
+    always, other_moments, plain_late = [], [], []
+    for bases, lin in shapes4:
+        n = len(bases)
+        for kind in kinds:
+            for y, x in itertools.permutations(range(n), 2):
+                for sl in pair_slots(n, y, x):
+                    h = ("pair", bases, kind, (y, x), sl)
+                    if repointing(lin, (y, x), sl):
+                        (always if sl == (n, n) else other_moments).append(h)
+                    elif sl == (n, n):
+                        plain_late.append(h)
+    if thorough:
+        chosen = always + other_moments + plain_late
+        for bases, lin in shapes4:
+            for kind in kinds:
+                for perm in itertools.permutations(range(len(bases))):
+                    chosen.append(("every", bases, kind, perm, slots_every(perm, False)))
+        chosen += [draw(shapes4, False) for _ in range(800)] + [draw(shapes5, i % 2 == 0) for i in range(2000)]
+    else:
+        chosen = always + rng.sample(other_moments, 80) + rng.sample(plain_late, 20) \
+            + [draw(shapes4, i % 4 != 0) for i in range(60)] + [draw(shapes5, i % 4 != 0) for i in range(80)]
+    out, seen = [], set()
+    for what, bases, kind, definers, slots in chosen:
+        label = "%s of %s in %s at %s, bases %s" % (what, kind, "".join(SPACE_NAMES[d] for d in definers), list(slots),
+                                                    " ".join("%s(%s)" % (SPACE_NAMES[i], ",".join(SPACE_NAMES[b] for b in bs))
+                                                             for i, bs in enumerate(bases)))
+        if label not in seen:
+            seen.add(label)
+            out.append((label, arrival_history(bases, kind, definers, slots)))
+    return out, {"arrival_repointing_pairs_all": len(always), "arrival_shapes": len(shapes4) + len(shapes5)}
+
+
+def run_arrivals(ctx, out, stats):
+    fam, counts = arrival_family(ctx)
+    stats.update(counts)
+    for label, ops in fam:
+        sub = core.Outcome()
+        run_history([list(o) for o in ops], sub, stats, check_values=False)
+        S.merge(out, sub)
+        stats["arrival_histories"] += 1
+        if len([f for f in out.failures if not f.get("key")]) >= 3 or out.disagreements:
+            break
+
+
 def run(ctx, out):
     stats = collections.Counter()
     n = ctx.n(60, 1200)
@@ -312,12 +503,18 @@ def run(ctx, out):
             self.mech.finish(out2, lambda kk: S.hist_json(ops, kk), stats)
     S.enumerate_edits(ctx, out, "C03", _H, CFG, stats)
     api.run_c03(ctx, out, stats, run_history)
-    out.coverage.update({"evaluations": len(cases) + stats["enumerated_scenarios"], "programs": len(seen),
+    run_arrivals(ctx, out, stats)
+    out.coverage.update({"evaluations": len(cases) + stats["enumerated_scenarios"] + stats["arrival_histories"], "programs": len(seen),
                          "distinct_nontrivial": nontrivial,
                          "rule": RULE + "; plus name-clash histories (struct_props.gen_clash: one alphabet of four names "
                                         "for cells, references, child spaces, model-level references and top-level spaces) "
                                         "compared edit by edit with the mechanism model"
-                                        "; plus every motif program x applicable single edits (thorough: all) and pairs",
+                                        "; plus every motif program x applicable single edits (thorough: all) and pairs"
+                                        "; plus the arrival family: ordered-base DAGs on 3-4 spaces (all) and 5 spaces (an "
+                                        "intermediate space put into one edge) x cells / references x the member defined in two "
+                                        "spaces in both orders at every moment of the creation of the spaces, and in every space in "
+                                        "every order (quick: every arrival that moves an existing derived member to a new first "
+                                        "definer with all spaces created first, seeded samples of the rest; thorough: all on <= 4 spaces)",
                          "samples": samples, "input_distribution": dict(stats),
                          "traces_validated_against_impl": len(cases)})
     out.assumptions.append("object-valued references (rebinding) are C10's subject and are not compared here")
